@@ -1175,6 +1175,14 @@ fn run_inner(args: &Args, out: &mut Out) {
                 out.case(&line, &obs, &orc);
                 continue;
             }
+            if f.len() == 3 && f[0] == "C10.sweep32" {
+                let (obs, orc) = match (f[1].parse(), f[2].parse()) {
+                    (Ok(a), Ok(b)) => emitx::run_sweep32(a, b),
+                    _ => (String::new(), "SKIP:bad request".into()),
+                };
+                out.case(&line, &obs, &orc);
+                continue;
+            }
             if f[0] == "C10.pp" || f[0] == "C10.loc" || f[0] == "C10.diag" {
                 let (obs, orc) = filesx::replay(&f, &mut hist);
                 out.case(&line, &obs, &orc);
